@@ -122,9 +122,11 @@ static void __attribute__((noinline)) xv_poison_stack(void) { volatile unsigned 
 /* host floating-point set-ups a program may legitimately have when it calls the library:
  *   XV_FPTRAP     invalid / divide-by-zero / overflow exceptions trap (feenableexcept, gfortran -ffpe-trap)
  *   XV_X87PC=24|53  the x87 precision-control field set to single / double (Direct3D 9, some audio and JIT engines, old BSD defaults): SSE
- *                 arithmetic - all a double computation on x86-64 uses - is not affected, x87 long double arithmetic is */
+ *                 arithmetic - all a double computation on x86-64 uses - is not affected, x87 long double arithmetic is
+ *   XV_ROUND=up|down|zero   the rounding mode of the calling thread (fesetround): results may then differ in the last bits, not more */
 static void xv_fptrap_from_env(void) {
-  const char *pc = getenv("XV_X87PC");
+  const char *pc = getenv("XV_X87PC"), *rm = getenv("XV_ROUND");
+  if (rm) fesetround(rm[0] == 'u' ? FE_UPWARD : rm[0] == 'd' ? FE_DOWNWARD : rm[0] == 'z' ? FE_TOWARDZERO : FE_TONEAREST);   /* XV_ROUND=up|down|zero: a host doing interval arithmetic / directed rounding */
   if (getenv("XV_FPTRAP")) feenableexcept(FE_INVALID | FE_DIVBYZERO | FE_OVERFLOW);
 #if defined(__x86_64__) || defined(__i386__)
   if (pc) { unsigned short cw = 0; __asm__ volatile("fnstcw %0" : "=m"(cw)); cw &= (unsigned short)~0x0300; if (atoi(pc) == 53) cw |= 0x0200; __asm__ volatile("fldcw %0" : : "m"(cw)); }
